@@ -46,7 +46,7 @@ ASSUMPTIONS = {"C13": [
 EXPECTED_PROBES = {"C13": ["probe:expr_cache_hit", "probe:path_cache_hit", "fault:evict_expr_cache", "fault:evict_path_cache",
                            "fault:lru_shrunk", "fault:lru_cleared", "probe:expr_reused_on_new_arrays", "probe:negative_int_labels",
                            "probe:list_inputs_unhashable", "fault:pathfinder_failed_once", "api:einsum", "api:ncon", "api:expr_constants", "probe:constants_mutated_in_place",
-                           "api:array_contract_path", "api:einsum_expression", "probe:explicit_size_dict", "probe:opt_einsum_namespace"]}
+                           "api:array_contract_path", "api:einsum_expression", "probe:explicit_size_dict", "probe:opt_einsum_namespace", "probe:optimizer_instance_shared"]}
 
 
 def violation_class(v):
@@ -71,7 +71,7 @@ _LRU_SITES = [
     ("cotengra.interface", "can_hash_optimize"),
 ]
 _ORIG = {}
-_FLAKY = {"fail": False}
+_FLAKY = {"fail": False, "fail_auto": False}
 
 
 def _mods():
@@ -103,6 +103,15 @@ def cold_start():
     I._find_tree_handlers.clear()
     I._HASH_OPTIMIZE_PREPARERS.clear()
     _FLAKY["fail"] = False
+    _FLAKY["fail_auto"] = False
+    import cotengra.presets as P
+
+    for o in (P.auto_optimize, P.auto_hq_optimize):
+        o._hyperoptimizers_by_thread.clear()
+        for k in [k for k in o.__dict__ if k.startswith("_last") or k.startswith("_memo")]:
+            pass
+    _INSTANCES["subject"] = _new_instance()
+    _INSTANCES["use_subject"] = True
 
 
 def shrink_lrus(maxsize):
@@ -111,6 +120,49 @@ def shrink_lrus(maxsize):
         if name in ("preset_to_optimizer", "can_hash_optimize"):
             continue
         setattr(mods[m], name, functools.lru_cache(maxsize)(fn.__wrapped__))
+
+
+class cold_preset_state:
+    """Reference side: the string presets keep caching optimizers per thread; start them empty (restored afterwards)."""
+
+    def __enter__(self):
+        import cotengra.presets as P
+
+        self.saved = []
+        for o in (P.auto_optimize, P.auto_hq_optimize):
+            self.saved.append((o, dict(o.__dict__)))
+            o._hyperoptimizers_by_thread = {}
+        _INSTANCES["use_subject"] = False
+        return self
+
+    def __exit__(self, *exc):
+        for o, d in self.saved:
+            # drop anything the reference call memoised on the preset object
+            for k in list(o.__dict__):
+                if k not in d:
+                    del o.__dict__[k]
+            o.__dict__.update(d)
+        _INSTANCES["use_subject"] = True
+        return False
+
+
+def _arm_auto_fault():
+    """The exact path finder behind the 'auto' preset fails once (fault site for small contractions)."""
+    import cotengra.presets as P
+
+    o = P.auto_optimize
+    real = o._optimize_optimal_fn
+
+    def flaky(*a, **k):
+        if _FLAKY["fail_auto"]:
+            _FLAKY["fail_auto"] = False
+            raise RuntimeError("injected pathfinder failure")
+        return real(*a, **k)
+
+    if not getattr(real, "_sim_flaky", False):
+        flaky._sim_flaky = True
+        flaky._real = real
+        o._optimize_optimal_fn = flaky
 
 
 class uncached_internals:
@@ -247,6 +299,26 @@ def _gen_pool(rng, sw):
         s["optimize_kind"] = "edge"
         s["edge_as_list"] = rng.random() < 0.5
         add(s, "optimize-edge-path")
+    # a caching optimizer instance as `optimize`, on the base and on look-alikes of it
+    if sw.random() < 0.4:
+        for sp in list(pool):
+            if sp["diff"] in ("base", "output-permuted", "size-changed", "sizes-permuted") and sp["optimize_kind"] == "preset":
+                s2 = copy.deepcopy(sp)
+                s2["optimize"] = "<ReusableHyperOptimizer instance>"
+                s2["optimize_kind"] = "reusable-instance"
+                add(s2, "instance+" + sp["diff"])
+        if cands_perm := [i for i, t in enumerate(base["inputs"]) if len(set(t)) >= 2]:
+            s2 = copy.deepcopy(base)
+            i = rng.choice(cands_perm)
+            t2 = list(s2["inputs"][i])
+            for _ in range(6):
+                rng.shuffle(t2)
+                if t2 != list(base["inputs"][i]):
+                    break
+            s2["inputs"][i] = t2
+            s2["optimize"] = "<ReusableHyperOptimizer instance>"
+            s2["optimize_kind"] = "reusable-instance"
+            add(s2, "instance+term-permuted")
     # kwargs variants
     for kw in rng.sample([{"strip_exponent": True}, {"implementation": "cotengra"}, {"implementation": "autoray"},
                           {"prefer_einsum": True}, {"sort_contraction_indices": True}], 2):
@@ -350,7 +422,19 @@ def _materialise(spec):
         opt = [tuple(p) for p in opt]
     elif kind == "edge":
         opt = list(opt) if spec.get("edge_as_list") else tuple(opt)
+    elif kind == "reusable-instance":
+        # one caching optimizer OBJECT handed to many calls (subject); the reference side gets a fresh one per call
+        opt = _INSTANCES["subject"] if _INSTANCES["use_subject"] else _new_instance()
     return inputs, output, sizes, opt
+
+
+_INSTANCES = {"subject": None, "use_subject": True}
+
+
+def _new_instance():
+    import cotengra as ctg
+
+    return ctg.ReusableHyperOptimizer(methods=["greedy"], max_repeats=2, optlib="random", parallel=False, seed=7)
 
 
 def _arrays(spec, sizes, aseed):
@@ -484,6 +568,7 @@ def run_case(prop, case):
     states = set()
     violations = []
     _register_flaky()
+    _arm_auto_fault()
     cold_start()
     if case.get("lru_maxsize"):
         shrink_lrus(case["lru_maxsize"])
@@ -535,6 +620,9 @@ def run_case(prop, case):
             if c.get("fail_pathfinder") and spec["optimize"] == "sim-flaky":
                 _FLAKY["fail"] = True
                 injected_fail = True
+            if c.get("fail_pathfinder") and spec["optimize"] == "auto":
+                _FLAKY["fail_auto"] = True
+                injected_fail = True
             # ---- subject: caching on, shared process state --------------------------
             prng.reseed_globals(prng.H(case["seed"], "call", ci))
             sub_err = None
@@ -550,8 +638,9 @@ def run_case(prop, case):
                     sub = _call(ctg, api, spec, c["aseed"], True, held_expr=held.get(si) if api == "expr_reuse" else None)
             except Exception as e:
                 sub_err = e
-            consumed_fail = injected_fail and not _FLAKY["fail"]
+            consumed_fail = injected_fail and not (_FLAKY["fail"] or _FLAKY["fail_auto"])
             _FLAKY["fail"] = False
+            _FLAKY["fail_auto"] = False
             if consumed_fail:
                 faults["fault:pathfinder_failed_once"] += 1
                 # the failed call may fail; but it must leave no cache entry behind
@@ -569,7 +658,7 @@ def run_case(prop, case):
             prng.reseed_globals(prng.H(case["seed"], "call", ci))
             ref_err = None
             ref = None
-            with uncached_internals():
+            with uncached_internals(), cold_preset_state():
                 snap_e, snap_p = dict(I._CONTRACT_EXPR_CACHE), dict(I._PATH_CACHE)
                 try:
                     if api == "expr_constants_inplace":
@@ -588,6 +677,8 @@ def run_case(prop, case):
             counters["api:" + api] += 1
             if spec.get("sizes_as", "shapes") != "shapes" and api in ("array_contract_path", "array_contract_expression"):
                 counters["probe:explicit_size_dict"] += 1
+            if spec.get("optimize_kind") == "reusable-instance":
+                counters["probe:optimizer_instance_shared"] += 1
             if isinstance(spec["optimize"], str) and spec["optimize"].startswith("opt_einsum:"):
                 counters["probe:opt_einsum_namespace"] += 1
             if spec["diff"].startswith("labels-ncon"):
@@ -621,7 +712,10 @@ def run_case(prop, case):
                 counters["probe:both_raised:" + type(sub_err).__name__] += 1
                 seen_diffs.append(spec["diff"])
                 continue
-            if sub[0] == "path":
+            if sub[0] == "path" and spec.get("optimize_kind") == "reusable-instance":
+                # a stored order is a legitimate answer even if a fresh search would pick another one
+                counters["probe:instance_path_not_compared"] += 1
+            elif sub[0] == "path":
                 if sub[1] != ref[1]:
                     # nondeterministic optimizer? two uncached calls must agree for the comparison to mean anything
                     with uncached_internals():
